@@ -9,17 +9,18 @@ from .n0struct_utils import (
     to_int,
 )
 from .n0struct_files import load_lines
+from .n0struct_files_csv import load_csv
 # ******************************************************************************
 # ******************************************************************************
 def load_fwf_format(file_path: str) -> dict:
     # fwf_format file is csv file, contains columns 'name','offset' and 'width' or 'till'
     return {
         row['name']: {
-            'offset':   to_int(column.get('offset'), default_value = None),
-            'width':    to_int(column.get('width'), default_value = None),
-            'till':     to_int(column.get('till'), default_value = None),
+            'offset':   to_int(row.get('offset'), default_value = None),
+            'width':    to_int(row.get('width'), default_value = None),
+            'till':     to_int(row.get('till'), default_value = None),
         }
-        for row in load_csv(file_path, mandatory_columns=('name','offset'))
+        for row in load_csv(file_path, contains_header=('name','offset'), header_is_mandatory=True)
     }
 # ******************************************************************************
 def parse_fwf_row(incoming_row: str, fwf_format: dict, validate: bool = True) -> typing.Union[dict, tuple]:
